@@ -45,7 +45,41 @@ var (
 		"\t$$", " a##b", " a#@#b", " a#?#b", "x##y", " $$ ## $@$", " 100$$ or 200$@$", "#$$", "#$@$", "@#$$", " see example.org##.banner"}
 )
 
+// c18DeepName (N2): a valid name with MANY labels: 5, 6, 7, 9, 17, 33, 41, 65 … up to 120 (short labels, at most 253
+// bytes in all), or few LONG labels (up to 63 bytes each); the last label is an alphabetic TLD.
+func c18DeepName(r *rng) string {
+	k := n2Count(r, 3, func() int { return 5 + r.n(4) }, 5, 120)
+	labels := []string{"a", "b", "w", "x1", "0", "cdn", "www", "ad-s", "m", "s3", "eu", "xn--80ak6aa92e", "A", "z9"}
+	tail := pick(r, []string{"example.org", "test.co.uk", "e.org", "site.com", "city.kawasaki.jp", "example.museum"})
+	var parts []string
+	n := len(tail)
+	for i := strings.Count(tail, ".") + 1; i < k; i++ {
+		l := pick(r, labels)
+		if k > 40 {
+			l = l[:1]
+		}
+		if r.chance(1, 12) && k < 12 {
+			l = strings.Repeat(pick(r, []string{"q", "ab", "x-y"}), 63)[:1+r.n(63)]
+			l = strings.TrimRight(l, "-") + "e"
+			if len(l) > 63 {
+				l = l[:63]
+			}
+		}
+		if n+len(l)+1 > 253 {
+			break
+		}
+		parts = append(parts, l)
+		n += len(l) + 1
+	}
+	parts = append(parts, tail)
+
+	return strings.Join(parts, ".")
+}
+
 func c18Name(r *rng) string {
+	if r.chance(1, 10) {
+		return c18DeepName(r)
+	}
 	if r.chance(1, 5) {
 		return pick(r, c18OddNames)
 	}
@@ -77,6 +111,10 @@ func c18Line(r *rng) (line string, names []string) {
 		k := 1 + r.n(8)
 		if r.chance(1, 2) {
 			k = 1 + r.n(2)
+		}
+		if r.chance(1, 20) {
+			// N2: MANY names on one line (9, 17, 33, 41, 65, 101, 256 … up to 300)
+			k = n2Count(r, 1, nil, 9, 300)
 		}
 		for i := 0; i < k; i++ {
 			n := c18Name(r)
@@ -162,7 +200,54 @@ func c18Kind(line string) string {
 	})
 }
 
-func c18DNS(line string, queries []string) string {
+// c18Side is a list standing next to the list under test in the storage of c18DNS.  It never lists a queried
+// name: it yields no rule at all (empty, comments, rejected lines, ignored cosmetic rules) or only rules
+// about names of its own, so the answers are those of the one-line list alone -- however the lists are split.
+type c18Side struct {
+	text   string
+	ign    bool
+	file   bool
+	before bool
+}
+
+// c18Sides draws 0..4 side lists; mostly at least one rule-less list BEFORE the list under test (a
+// list that yields nothing must not hide the lists after it), often after another list.
+func c18Sides(r *rng) (out []c18Side, note string) {
+	if r.chance(2, 5) {
+		return nil, ""
+	}
+	n := 1 + r.n(4)
+	var notes []string
+	for i := 0; i < n; i++ {
+		var sd c18Side
+		if r.chance(2, 3) {
+			lines, ign := mRuleLessBody(r)
+			sd.text = strings.Join(lines, "\n")
+			if lines != nil && r.chance(2, 3) {
+				sd.text += "\n"
+			}
+			sd.ign = ign
+		} else {
+			sd.text = fmt.Sprintf("0.0.0.0 side%d.invalid www.side%d.invalid\n# end\n||net-side%d.invalid^\n", i, i, i)
+			if r.chance(1, 3) {
+				sd.text = fmt.Sprintf("side%d.invalid", i) // a single bare name, no line break
+			}
+			sd.ign = r.chance(1, 2)
+		}
+		sd.before = r.chance(3, 4)
+		sd.file = r.chance(1, 4)
+		out = append(out, sd)
+		pos := "after"
+		if sd.before {
+			pos = "before"
+		}
+		notes = append(notes, fmt.Sprintf("%s:%q", pos, sd.text))
+	}
+
+	return out, " side lists (each group in this order) [" + strings.Join(notes, " ") + "]"
+}
+
+func c18DNS(line string, queries []string, sides ...c18Side) string {
 	return guardStr(func() string {
 		r, _ := rules.NewRule(line, 1)
 		if _, ok := r.(*rules.HostRule); !ok {
@@ -173,7 +258,16 @@ func c18DNS(line string, queries []string) string {
 			// family c18chunk (op_m4_readers.go): the same line served by a reader with short reads
 			list = c18ListHook(line)
 		}
-		s, err := filterlist.NewRuleStorage([]filterlist.RuleList{list})
+		var before, after []filterlist.RuleList
+		for i, sd := range sides {
+			l := r1NewList(2+i, sd.text, sd.ign, sd.file)
+			if sd.before {
+				before = append(before, l)
+			} else {
+				after = append(after, l)
+			}
+		}
+		s, err := filterlist.NewRuleStorage(append(append(before, list), after...))
 		if err != nil {
 			return "storage-error"
 		}
@@ -229,7 +323,7 @@ func genC18(r *rng, n int, w *bufio.Writer) {
 			// like a hosts line of its own: it must stay a comment
 			tail := fmt.Sprintf("remark%d.example", r.n(100))
 			head := pick(r, []string{"0.0.0.0 ", "::1 ", "10.0.0.1\t"}) + strings.Join(names, " ")
-			if len(names) == 0 || strings.ContainsAny(head, "#\n\r") {
+			if len(names) == 0 || strings.ContainsAny(head, "#\n\r") || len(head) > 3000 {
 				head, names = "0.0.0.0 listed.example", []string{"listed.example"}
 			}
 			head += " # "
@@ -283,6 +377,7 @@ func genC18(r *rng, n int, w *bufio.Writer) {
 				uq = append(uq, q)
 			}
 		}
-		fmt.Fprintf(w, "c18.dns %s %s %s = %s ## %q\n", wb(line), tables, wstrs(uq), c18DNS(line, uq), line)
+		sides, sideNote := c18Sides(r)
+		fmt.Fprintf(w, "c18.dns %s %s %s = %s ## %q%s\n", wb(line), tables, wstrs(uq), c18DNS(line, uq, sides...), line, sideNote)
 	}
 }
